@@ -84,6 +84,7 @@ class Cfg:
         self.min_types = 0
         self.redactors = True
         self.union_struct_bias = False
+        self.annot_bias = False       # C13: annotations in every namespace and on most members
         self.risky_literals = 0       # how many near-miss literals (C10) a spec may contain
         self.doc_escapes = False      # doc words like C:\\users (\\u... in generated docstrings)
         self.omitted = True           # Omitted(...) annotations (change what is encoded)
@@ -329,7 +330,7 @@ class Builder:
     # -- annotations -------------------------------------------------------------------------
     def fill_annotations(self, ns):
         g, cfg = self.g, self.cfg
-        if not g.p(45):
+        if not (cfg.annot_bias or g.p(45)):
             return
         defs = []
         if cfg.custom_annotations and g.p(40):
@@ -409,7 +410,7 @@ class Builder:
         redactors not on user-defined / void types nor on references to aliases; aliases take
         only redactors and custom annotations.  Entries are absolute (namespace, name)."""
         g = self.g
-        if not self.cfg.annotations or not g.p(30):
+        if not self.cfg.annotations or not g.p(75 if self.cfg.annot_bias else 30):
             return []
         out = []
         groups = set()
@@ -460,8 +461,11 @@ class Builder:
             if d['k'] != 'alias':
                 continue
             me = (ns['name'], d['name'])
-            t = self.gen_type(ns, depth=g.int(0, 2), allow_nullable=self.cfg.nullable_aliases,
-                              max_rank=self.rank[me])
+            if self.cfg.annot_bias and g.p(50):
+                t = g.choice([prim('String'), prim('Int64'), prim('UInt32'), prim('Float64')])
+            else:
+                t = self.gen_type(ns, depth=g.int(0, 2), allow_nullable=self.cfg.nullable_aliases,
+                                  max_rank=self.rank[me])
             d['type'] = t
             d['annots'] = self.pick_annotations(ns, self.alias_redactable(t), is_alias_def=True)
 
@@ -602,7 +606,21 @@ class Builder:
             if d['k'] == 'struct':
                 for _ in range(g.int(0, cfg.max_fields)):
                     name = self.namer.fresh(SNAKE, taken, extra_ok=lambda s: s not in RESERVED_SNAKE)
-                    t = self.gen_type(ns, g.int(0, cfg.type_depth))
+                    red_aliases = [('alias', n_, a_['name']) for n_, a_ in self.visible(ns, ('alias',))
+                                   if a_['type'] is not None and self.has_redactor(a_['annots'])] \
+                        if cfg.annot_bias else []
+                    if red_aliases and g.p(35):
+                        a_ = g.choice(red_aliases)
+                        t = g.choice([a_, ('nullable', a_), ('list', a_, None, None),
+                                      ('list', ('nullable', a_), None, None),
+                                      ('map', prim('String'), ('nullable', a_)),
+                                      ('nullable', ('list', a_, None, None))])
+                    elif cfg.annot_bias and g.p(40):
+                        base = g.choice([prim('String'), prim('Int64'), prim('UInt64'), prim('Float64')])
+                        t = g.choice([base, ('nullable', base), ('list', base, None, None),
+                                      ('map', prim('String'), base), ('nullable', ('list', base, None, None))])
+                    else:
+                        t = self.gen_type(ns, g.int(0, cfg.type_depth))
                     f = {'name': name, 'type': t, 'doc': None, 'default': None, 'annots': []}
                     self.maybe_default(ns, f)
                     f['annots'] = self.pick_annotations(ns, self.redactable(t))
@@ -612,7 +630,13 @@ class Builder:
             else:
                 for _ in range(g.int(0 if d['parent'] else 1, cfg.max_fields)):
                     name = self.namer.fresh(TAG_WORDS, taken, extra_ok=lambda s: s not in RESERVED_SNAKE)
-                    if g.p(45):
+                    red_aliases = [('alias', n_, a_['name']) for n_, a_ in self.visible(ns, ('alias',))
+                                   if a_['type'] is not None and self.has_redactor(a_['annots'])] \
+                        if cfg.annot_bias else []
+                    if red_aliases and g.p(25):
+                        a_ = g.choice(red_aliases)
+                        t = g.choice([a_, ('nullable', a_), ('list', ('nullable', a_), None, None)])
+                    elif g.p(45):
                         t = None     # Void tag (LR "Union": type omitted)
                     else:
                         uw = 60 if cfg.union_struct_bias else 30
